@@ -204,6 +204,26 @@ func init() {
 					}
 					w.Each(len(items), func(i int) { w.Item(items[i][0], items[i][1]) })
 				}, Eval: evalC09},
+			{Name: "new-literal-families", Space: "units a, a+x, x+a for every literal a the tree under test has in addition to the pinned tree and every symbol x, x all openers x {4K,16K,64K} (empty on the pinned tree)", Share: 1,
+				Run: func(w *fw.W) {
+					var items [][2]string
+					add := func(atoms, syms, openers []string, side string) {
+						for _, a := range atoms {
+							units := []string{a}
+							for _, x := range syms {
+								units = append(units, a+x, x+a)
+							}
+							for _, u := range units {
+								for _, o := range openers {
+									items = append(items, [2]string{u, side + o})
+								}
+							}
+						}
+					}
+					add(uniq(alpha.DeltaSQL(), newByteAtoms()), c09SQLSyms, c09SQLOpeners, "sql|")
+					add(uniq(alpha.DeltaHTML(), newByteAtoms()), c09HTMLSyms, c09HTMLOpeners, "html|")
+					w.Each(len(items), func(i int) { w.Item(items[i][0], items[i][1]) })
+				}, Eval: evalC09},
 			{Name: "html-families", Space: "14 openers x units over 33 HTML symbols/atoms ^<=2 (quick) / <=3 (thorough) x {4K,16K,64K}", Share: 1,
 				Run: func(w *fw.W) {
 					units := alpha.Units(c09HTMLSyms, w.Pick(2, 3))
